@@ -37,6 +37,9 @@ GOOD_WINDOWS = [
     (8, 490, 8, 4), (656, 491, 16, 2),                          # straddle y = 492
     (0, 0, 1304, 984),                                          # everything
     (0, 255, 8, 2), (248, 0, 16, 1),                            # byte boundaries of the window registers
+    (8, 250, 16, 6), (8, 256, 16, 4), (8, 506, 16, 6), (8, 512, 16, 4), (8, 762, 16, 6), (8, 768, 16, 4),   # ending at / starting at 256, 512, 768 (y)
+    (240, 6, 16, 3), (256, 6, 16, 3), (496, 6, 16, 3), (512, 6, 16, 3), (752, 6, 24, 3), (1016, 6, 16, 3), (1024, 6, 16, 3), (1272, 6, 24, 3),  # (x)
+    (16, 3, 8, 258), (0, 9, 264, 2),                            # taller / wider than 255
 ]
 BAD_WINDOWS = [
     (3, 0, 8, 1), (8, 8, 12, 3), (4, 4, 4, 4),                  # not 8-aligned
